@@ -9,12 +9,15 @@ multiple of it, so the float arithmetic of the real loop is exact and equals the
 
 Everything outside the loop is a parameter (`Env`), chosen adversarially:
   * `adv k`   — the k-th `time.time()` of the loop returns a clock that moved on by `adv k + 1 ≥ 1` ticks,
-  * `dur k`, `out k` — duration and outcome of the k-th call of the thread (`doPoll`, `read_*`, `initialReads`, `writeInitParams`),
+  * `dur k`, `out k` — duration and outcome of the k-th call of the thread (`doPoll`, `read_*`, `initialReads`, and every
+                `write_<p>(value)` that `writeInitParams` makes for a start value still to be written),
   * `touch k` — parameter time stamps set while the k-th call ran (`announceUpdate`),
   * `ext k`   — what other threads did to the `PollInfo`s while the k-th call ran (each also sets the trigger event),
   * `wake k`  — the k-th `triggerPoll.wait`: what other threads do while it lasts, as batches `(d, exts)`: `d` ticks after
                 the wait began `exts` happen; the wait ends there if that set the event, otherwise at its time-out.
                 (`d = 0`: between the computation of `wait_time` and the entry of `wait`.)
+  * `takes k` — which further entries the k-th call itself takes out of its module's `writeDict` (a common write handler
+                fetching the values of the other members of its group, `rwhandler.WriteParameters.__missing__`),
   * `gap k`   — what other threads do between the return of the k-th `triggerPoll.wait` of the loop and the
                 `triggerPoll.clear()` that follows it (their setting of the event is wiped out by the `clear`; the
                 loop then starts over and re-reads every `PollInfo`, which is why nothing is lost).
@@ -63,8 +66,9 @@ inductive Fn
   | doPoll
   | read (p : Nat)
   | init                     -- `initialReads`
-  | write                    -- `writeInitParams`: in the start-up round, and once more behind it (makes up for what a
-                             --   round broken off by a communication failure skipped)
+  | write (p : Nat)          -- `write_<p>(value)`, called by `writeInitParams` for a start value that is still to be
+                             --   written: in the start-up round, and behind it (what a round broken off by a
+                             --   communication failure skipped)
   deriving DecidableEq, Repr, Inhabited
 
 /-- start of a call made by the poll thread: time, module (index in the thread's module list), function, duration -/
@@ -112,6 +116,7 @@ structure Env where
   ext : Nat → List Ext
   wake : Nat → List (Nat × List Ext)
   gap : Nat → List Ext
+  takes : Nat → List Nat
 
 /-- an entry of `to_poll`: (module index, parameter) -/
 abbrev Entry := Nat × Nat
@@ -128,6 +133,9 @@ structure PollState where
   /-- ghost (never read by the loop): the latest refresh of a parameter so far — the largest of the time stamps
   it received and of the start times of the poller's `read_*` calls for it -/
   refreshed : Nat → Nat → Nat
+  /-- `mobj.writeDict` per module (index in the thread's list): the parameters with a start value (from the
+  configuration or the parameter definition) that is still to be written, in dictionary order -/
+  pending : Nat → List Nat
 
 /-- `wait_time = 999` in ticks is a parameter of the model (generated from the source) -/
 structure Consts where
@@ -370,15 +378,51 @@ structure ProRes where
   evs : List Event
   aborted : Bool            -- a `CommunicationFailedError` ended the initial round
 
-/-- `mobj.writeInitParams(); mobj.initialReads()` for every module of the thread: two calls.  `writeInitParams` contains
-its own errors (its outcome is not looked at) and is not a poll function.  A `CommunicationFailedError` in `initialReads`
-aborts the round, every other exception is logged (after `fix: an exception in initialReads …`). -/
+/-- `self.writeDict.pop(pname, Done)` for module `i` (the keys of a dictionary are unique) -/
+def popPending (pd : Nat → List Nat) (i p : Nat) : Nat → List Nat :=
+  fun j => if j = i then (pd j).filter (fun q => q != p) else pd j
+
+/-- the write function itself has taken the entries `ts` out of the module's `writeDict`
+(`CommonWriteHandler`: `values[key]` → `WriteParameters.__missing__` → `self.obj.writeDict.pop(key)`) -/
+def takeOut (pd : Nat → List Nat) (i : Nat) (ts : List Nat) : Nat → List Nat :=
+  fun j => if j = i then (pd j).filter (fun q => !ts.contains q) else pd j
+
+/-- one start value: the entry is taken out of `writeDict`, then `write_<p>(value)` is called — a call like any other
+of the thread (it takes time, sets time stamps, other threads act meanwhile; writing `pollinterval` runs
+`PollInfo.update_interval`, which reaches the model as an action `ext`; a common write handler takes the other members
+of its group out of `writeDict`).  Whatever it raises — SECoP error, silent or not, or any other exception — is logged
+there: the outcome is not looked at. -/
+def writeOne (env : Env) (σ : PollState) (i p : Nat) : CallRes :=
+  let r := call env { σ with pending := popPending σ.pending i p } i (.write p)
+  ⟨{ r.σ with pending := takeOut r.σ.pending i (env.takes σ.nCall) }, r.ev, r.out⟩
+
+/-- the body of `for pname in list(self.writeDict):` of `writeInitParams` (844-868) over the names `ps` (the snapshot
+taken when the loop begins): a name that is still in `writeDict` is written (`writeOne`); one that is not
+(`value is Done`: "in the mean time, a poller or handler might already have done it") is passed over.  Nothing else is
+called: in particular NO read function, polled or not. -/
+def writeParams (env : Env) (i : Nat) : List Nat → PollState → List Event → StepRes
+  | [], σ, evs => ⟨σ, evs⟩
+  | p :: ps, σ, evs =>
+    if p ∈ σ.pending i then
+      let r := writeOne env σ i p
+      writeParams env i ps r.σ (evs ++ [r.ev])
+    else writeParams env i ps σ evs
+
+/-- `mobj.writeInitParams()` for module `i` of the thread's list: every start value still to be written, in the order
+of `writeDict`.  (A module with nothing left makes no call at all.)  Not modelled: another THREAD taking entries out of
+`writeDict` while this runs (a client's write through a write handler) — not generated by the harness either. -/
+def writeInit (env : Env) (σ : PollState) (i : Nat) (evs : List Event) : StepRes :=
+  writeParams env i (σ.pending i) σ evs
+
+/-- `mobj.writeInitParams(); mobj.initialReads()` for every module of the thread: the start values, then one call.
+`writeInitParams` contains the errors of the write functions and is not a poll function.  A `CommunicationFailedError` in
+`initialReads` aborts the round, every other exception is logged (after `fix: an exception in initialReads …`). -/
 def initAll (env : Env) : List Nat → PollState → List Event → ProRes
   | [], σ, evs => ⟨σ, evs, false⟩
   | i :: is, σ, evs =>
-    let w := call env σ i .write
+    let w := writeInit env σ i evs
     let r := call env w.σ i .init
-    if r.out = .comm then ⟨r.σ, evs ++ [w.ev] ++ [r.ev], true⟩ else initAll env is r.σ (evs ++ [w.ev] ++ [r.ev])
+    if r.out = .comm then ⟨r.σ, w.evs ++ [r.ev], true⟩ else initAll env is r.σ (w.evs ++ [r.ev])
 
 /-- `mobj.callPollFunc(rfunc, raise_com_failed=True)` for every polled parameter -/
 def readAll (env : Env) : List Entry → PollState → List Event → ProRes
@@ -402,14 +446,14 @@ def startupRound (c : Consts) (env : Env) (σ : PollState) : ProRes :=
     if r2.aborted then ⟨waitEvent env r2.σ c.startupWait, r2.evs, true⟩ else r2
 
 /-- `for mobj in modules: mobj.writeInitParams()` behind the start-up round (`fix: start values skipped by a communication
-failure at startup are written before polling starts`): one call per module of the thread, polled or not.  It takes
-time, other threads act meanwhile; whatever a write function raises ends inside `writeInitParams`, so the outcome is not
-looked at.  (For a module whose values are already written it returns at once: duration 0 in the recorded environments.) -/
+failure at startup are written before polling starts`): for every module of the thread, polled or not, what is still in
+its `writeDict`.  The writes take time, other threads act meanwhile; whatever a write function raises ends inside
+`writeInitParams`.  (For a module the round has reached nothing is left: no call.) -/
 def lateAll (env : Env) : List Nat → PollState → List Event → StepRes
   | [], σ, evs => ⟨σ, evs⟩
   | i :: is, σ, evs =>
-    let r := call env σ i .write
-    lateAll env is r.σ (evs ++ [r.ev])
+    let r := writeInit env σ i evs
+    lateAll env is r.σ r.evs
 
 /-- everything before `while modules:` — the start-up round, then (after the start-up callback, which is not a call of
 the model) the configured values once more -/
@@ -427,11 +471,19 @@ def startMod (enabled : Bool) (slow : Nat) (polled : List Nat) (pollinterval : N
   { enabled := enabled, slow := slow, polled := polled, pollinterval := pollinterval, interval := pollinterval,
     fast := false, lastMain := 0, lastSlow := 0, lastStart := 0 }
 
+/-- which start values module initialisation (`Module.__init__`, modulebase.py 505-535) enters into `writeDict`: every
+parameter whose value is given explicitly — in the configuration, or as `value=` in its definition — (`given`, in parameter
+order; every parameter has a write wrapper, so `hasattr(self, 'write_' + pname)` always holds), in parameter order -/
+def givenIdx : Nat → List Bool → List Nat
+  | _, [] => []
+  | i, g :: gs => (if g then [i] else []) ++ givenIdx (i + 1) gs
+
 /-- the state in which the thread body begins: nothing read or called yet, the event clear, `to_poll = ()`;
-the ghost `refreshed` starts as the time stamps the parameters already carry -/
-def startState (clock : Nat) (mods : List Mod) (stamp : Nat → Nat → Nat) : PollState :=
+the ghost `refreshed` starts as the time stamps the parameters already carry; `pending` = what module initialisation
+has put into each `writeDict` -/
+def startState (clock : Nat) (mods : List Mod) (stamp : Nat → Nat → Nat) (pending : Nat → List Nat) : PollState :=
   { clock := clock, nRead := 0, nCall := 0, nWait := 0, trig := false, mods := mods, toPoll := none,
-    stamp := stamp, refreshed := stamp }
+    stamp := stamp, refreshed := stamp, pending := pending }
 
 /-- the whole thread body for `n` turns of the loop -/
 def thread (c : Consts) (env : Env) (n : Nat) (σ : PollState) : TurnRes :=
